@@ -635,6 +635,7 @@ fn install_hook() {
         return;
     }
     std::panic::set_hook(Box::new(|info| {
+        // (locations are reported relative to the crate they are in, see norm_loc)
         let msg = if let Some(s) = info.payload().downcast_ref::<&str>() {
             s.to_string()
         } else if let Some(s) = info.payload().downcast_ref::<String>() {
@@ -644,7 +645,7 @@ fn install_hook() {
         };
         let loc = info
             .location()
-            .map(|l| format!("{}:{}", l.file(), l.line()))
+            .map(|l| format!("{}:{}", norm_loc(l.file()), l.line()))
             .unwrap_or_else(|| "<unknown>".into());
         if std::env::var("VERIF_BACKTRACE").is_ok() {
             // debugging aid only
@@ -759,4 +760,22 @@ pub fn with_sim_pub<R>(f: impl FnOnce(&SimConfig) -> R) -> R {
 /// Number of simulations started on this OS thread so far (facades use it to drop per-run state).
 pub fn run_epoch() -> u64 {
     EPOCH.with(|e| e.get())
+}
+
+
+/// Source file of a panic, relative to its crate: `/repo/src/siqs.rs` and `/tmp/x/src/siqs.rs` both give
+/// `src/siqs.rs`; files of registry crates give `<crate>-<version>/src/...`. Violation classes and replay
+/// files are thereby independent of where the repository under test is checked out.
+pub fn norm_loc(file: &str) -> String {
+    if let Some(i) = file.find("/registry/src/") {
+        let rest = &file[i + "/registry/src/".len()..];
+        return match rest.find('/') {
+            Some(j) => rest[j + 1..].to_string(),
+            None => rest.to_string(),
+        };
+    }
+    match file.find("/src/") {
+        Some(i) => file[i + 1..].to_string(),
+        None => file.to_string(),
+    }
 }
